@@ -4,7 +4,7 @@ import NauyacaVerif.Mw.Bucket
 refill rate next to its tokens and time stamp.  These are the operations the translation of `RateLimiter.process_request`
 (harness/translate.py, option `store_idiom`) is written in.  Assumed about Python and nothing else: a dictionary holds references, so
 `x = d[k]; x.consume()` updates the object `d` holds under `k`; `TokenBucket(capacity, refill_rate)` is a full bucket stamped with the
-current monotonic time (`TokenBucket.__init__`; observed by the correspondence families of C10, not translated).
+current monotonic time (`TokenBucket.__init__`, translated too: `pyPut_is_init` in Props/Tr/LimiterRequest.lean).
 -/
 namespace Mw
 
